@@ -11,14 +11,13 @@ namespace FastPasta
 /-- Data-reachable panic sites of the implementation (C04). -/
 inductive PanicSite
   | invalidLayer             -- words/its.rs:94           panic!("Invalid layer number")
-  | fatalLaneGrouping        -- alpide_readout_frame.rs:120 unreachable!("Invalid fatal lane number")
   | ihwMissing               -- cdp_running.rs  status_words.ihw().unwrap()
   | feeIdNotSeen             -- error_stats.rs:78-86 expect("FEE ID found in error message ...")
   deriving DecidableEq, Repr, Inhabited
 
 def PanicSite.name : PanicSite → String
   | .invalidLayer => "invalidLayer"
-  | .fatalLaneGrouping => "fatalLaneGrouping" | .ihwMissing => "ihwMissing"
+  | .ihwMissing => "ihwMissing"
   | .feeIdNotSeen => "feeIdNotSeen"
 
 inductive Barrel | inner | middle | outer
@@ -148,11 +147,10 @@ def laneCodes (cfg : AlpideCfg) (barrel : Barrel) (laneNumber : Nat) (d : LaneDe
   (if countBad cfg barrel d then ["E9004"] else if orderBad cfg barrel laneNumber d then ["E9005"] else [])
 
 /-- `analyze_alpide_frame` + `do_lane_alpide_checks` for one lane -/
-def laneVerdict (cfg : AlpideCfg) (barrel : Barrel) (laneNumber : Nat) (d : LaneDec) :
-    Except PanicSite LaneVerdict :=
-  if d.fatal then .ok .fatal else
+def laneVerdict (cfg : AlpideCfg) (barrel : Barrel) (laneNumber : Nat) (d : LaneDec) : LaneVerdict :=
+  if d.fatal then .fatal else
   let codes := laneCodes cfg barrel laneNumber d
-  if codes.isEmpty then .ok (.valid ((dedupNat (d.chips.map (·.2))).headD 0)) else .ok (.error codes)
+  if codes.isEmpty then .valid ((dedupNat (d.chips.map (·.2))).headD 0) else .error codes
 
 /-- lane data of one readout frame: (data word ID, concatenated 9-byte chunks) in order of first
     appearance -/
@@ -174,27 +172,23 @@ structure FrameResult where
   deriving Repr, Inhabited
 
 /-- `check_alpide_data_frame` -/
-def checkAlpideFrame (cfg : AlpideCfg) (barrel : Barrel) (fs : LaneFrames) :
-    Except PanicSite FrameResult :=
+def checkAlpideFrame (cfg : AlpideCfg) (barrel : Barrel) (fs : LaneFrames) : FrameResult :=
   let rec go (fs : LaneFrames) (errIds : List Nat) (nErr : Nat) (codes : List String)
-      (st : AlpideStats) (fatal : List Nat) (valid : List (Nat × Nat)) :
-      Except PanicSite FrameResult :=
+      (st : AlpideStats) (fatal : List Nat) (valid : List (Nat × Nat)) : FrameResult :=
     match fs with
     | [] =>
       let ubc := dedupNat (valid.map (·.2))
       if ubc.length > 1 then
-        .ok { laneErrorIds := errIds ++ (ubc.flatMap fun bc => (valid.filter (·.2 == bc)).map (·.1)),
-              laneErrorCount := nErr + 1, laneCodes := codes, stats := st, newFatal := fatal }
-      else .ok { laneErrorIds := errIds, laneErrorCount := nErr, laneCodes := codes, stats := st,
-                 newFatal := fatal }
+        { laneErrorIds := errIds ++ (ubc.flatMap fun bc => (valid.filter (·.2 == bc)).map (·.1)),
+          laneErrorCount := nErr + 1, laneCodes := codes, stats := st, newFatal := fatal }
+      else { laneErrorIds := errIds, laneErrorCount := nErr, laneCodes := codes, stats := st, newFatal := fatal }
     | (id, data) :: rest =>
       let d := decodeLane data
       let ln := laneNumber barrel id
       match laneVerdict cfg barrel ln d with
-      | .error p => .error p
-      | .ok (.error cs) => go rest (errIds ++ [ln]) (nErr + 1) (codes ++ cs) (st.add d.stats) fatal valid
-      | .ok .fatal => go rest errIds nErr codes (st.add d.stats) (fatal ++ [ln]) valid
-      | .ok (.valid bc) => go rest errIds nErr codes (st.add d.stats) fatal (valid ++ [(ln, bc)])
+      | .error cs => go rest (errIds ++ [ln]) (nErr + 1) (codes ++ cs) (st.add d.stats) fatal valid
+      | .fatal => go rest errIds nErr codes (st.add d.stats) (fatal ++ [ln]) valid
+      | .valid bc => go rest errIds nErr codes (st.add d.stats) fatal (valid ++ [(ln, bc)])
   go fs [] 0 [] {} [] []
 
 def expectedLanes : Barrel → Nat
@@ -202,20 +196,18 @@ def expectedLanes : Barrel → Nat
 
 def sortNat (l : List Nat) : List Nat := l.mergeSort (· ≤ ·)
 
-/-- `check_frame_lanes_valid`: `ok true` = valid, `ok false` = reported (E72 inner / E73 outer) -/
-def frameLanesValid (barrel : Barrel) (fs : LaneFrames) (fatal : Option (List Nat)) :
-    Except PanicSite Bool :=
+/-- `check_frame_lanes_valid`: `true` = valid, `false` = reported (E72 inner / E73 outer) -/
+def frameLanesValid (barrel : Barrel) (fs : LaneFrames) (fatal : Option (List Nat)) : Bool :=
   let nf := match fatal with | some l => l.length | none => 0
   -- usize subtraction, release profile: wraps
   let expect := (expectedLanes barrel + 2^64 - nf % 2^64) % 2^64
-  if fs.length != expect then .ok false
+  if fs.length != expect then false
   else match barrel with
     | .inner =>
       let fl := fatal.getD []
-      if fl.any (· > 8) then .error .fatalLaneGrouping else
       let ids := sortNat (fs.map (fun f => ibLane f.1))
       let g (base : Nat) : List Nat := [base, base + 1, base + 2].filter (fun x => !fl.contains x)
-      .ok (ids == g 0 || ids == g 3 || ids == g 6)
-    | _ => .ok true
+      ids == g 0 || ids == g 3 || ids == g 6
+    | _ => true
 
 end FastPasta
